@@ -337,6 +337,9 @@ class Check:
         key = json.dumps(sig, sort_keys=True, default=repr)
         if key in [v['key'] for v in self.violations]:
             return 'dup'
+        ctx = getattr(self, 'replay_ctx', None)
+        if ctx is not None:
+            case = ctx(case)             # a suite may add what its replay needs (e.g. the timestamps values refer to)
         path = self.write_replay({'property': self.prop, 'what': what, 'signature': sig, 'case': case,
                                   'seed': self.seed, 'tier': self.tier})
         self.violations.append({'key': key, 'what': what, 'replay': path})
